@@ -70,6 +70,16 @@ func (c16) Gen(r *rand.Rand, tier string, run int) *core.Case {
 			core.Op{Kind: "call", Actor: 40, X: -1})
 		actors = r.IntN(3)
 	}
+	if c.Batch == "" && r.IntN(8) == 0 {
+		// the service's first object goes like any other; the service lives
+		// on with the others and gets new objects
+		c.Batch = "first-object-gone"
+		c.Params["first_gone"] = 1
+		c.Ops = append(c.Ops, core.Op{Kind: []string{"remove", "terminate", "self"}[r.IntN(3)], Actor: 50, X: 0, Y: int64(r.IntN(3))})
+		for i := 0; i < 2+r.IntN(2); i++ {
+			c.Ops = append(c.Ops, core.Op{Kind: "add", Actor: 50}, core.Op{Kind: "call", Actor: 50, X: -1})
+		}
+	}
 	if c.Batch == "" && r.IntN(4) == 0 {
 		c.Batch = "burst"
 		c.Params["conns"] = 2 + r.IntN(2)
@@ -339,7 +349,7 @@ func (c16) Run(c *core.Case, env *core.Env) {
 		st.mu.Lock()
 		added := o.addRet != 0
 		st.mu.Unlock()
-		if o.slot == 0 || !added {
+		if (o.slot == 0 && c.P("first_gone", 0) == 0) || !added {
 			return
 		}
 		if kind == "self" {
